@@ -23,6 +23,8 @@ for c in $PROP $EXTRA; do
 done
 for c in $PROP $EXTRA; do mkdir -p $OUT/replays; find /verif/replays/$c -newer $OUT/.stamp -type f -exec mv {} $OUT/replays/ \; 2>/dev/null; done
 rm -f $OUT/.stamp
+# a seeded change can reproduce the class of a repaired finding, whose committed replay file then has the same name: restore it
+git -C /verif checkout -- replays 2>/dev/null
 cd $WT && git checkout -q -- .
 echo "== demo without the change (expect success)"
 ( cd $OUT && timeout 600 bash ./demo_build.sh /repo > demo_without_change.log 2>&1; echo "demo rc without change=$?" )
